@@ -39,7 +39,8 @@ def check_C20(res, tier, seed, replay):
         gfile = os.path.join(wd, 'k5.dimacs')
         with open(gfile, 'w') as f:
             f.write(p_dimacs.demo_file_text(g))
-        algo_flags = {'signed': [], 'fvs': ['--signed=false', '--fvstrees=true'], 'iso': ['--signed=false', '--isotrees=true']}
+        algo_flags = {'signed': [], 'fvs': ['--signed=false', '--fvstrees=true'], 'iso': ['--signed=false', '--isotrees=true'],
+                      'iso_by_default': ['--signed=false'], 'signed_explicit': ['--signed=true', '--fvstrees=true']}
         ndemo = 0
         with open(trace, 'a') as out:
             for exe_d, name in zip(exes, ('mcb-dimacs', 'approx-mcb-dimacs')):
